@@ -41,6 +41,13 @@ pub mod oq3_parser {
         #[verifier::external_body] pub fn errors_is_empty(&self) -> (r: bool) ensures r == (self.err_tokens().len() == 0) { unimplemented!() }
         /// lexed_str.rs: `self.error.iter().map(|it| (it.token as usize, it.msg.as_str()))`
         #[verifier::external_body] pub fn errors(&self) -> (r: ErrIter<'_>) ensures r.rest() == self.err_tokens() { unimplemented!() }
+        /// kind of token i
+        pub uninterp spec fn kind_of(&self, i: nat) -> super::SyntaxKind;
+        /// unit LEX: kind (requires i < ntok)
+        #[verifier::external_body] pub fn kind(&self, i: usize) -> (r: super::SyntaxKind)
+            requires i < self.ntok(),
+            ensures r == self.kind_of(i as nat),
+        { unimplemented!() }
         /// unit LEX: text_range (requires i < ntok)
         #[verifier::external_body] pub fn text_range(&self, i: usize) -> (r: std::ops::Range<usize>)
             requires i < self.ntok(),
